@@ -108,3 +108,11 @@ func vStubWriteToRecord(f *FrameHeader, w *bufio.Writer) (int64, error) {
 	vSent = append(vSent, sf)
 	return int64(9 + len(sf.data)), nil
 }
+
+// Response.AppendBody with a body of symbolic length: only the byte count is
+// kept.
+//
+//verif:stub (*github.com/valyala/fasthttp.Response).AppendBody
+func vStubRespAppendBodyCount(r *fasthttp.Response, p []byte) {
+	vGhostOf(r).contentLength += len(p)
+}
